@@ -9,7 +9,8 @@
 //!   E <present> tid code flags nparams info0 info1 info2 addr ctxkind ip sp
 //!   B <present> validity dump_tid req_tid
 //!   M <present> size flags1 pid ctime
-//!   L <present> kind pid                             kind 0 "Pid:\t<pid>" | 1 no Pid line | 2 garbage value
+//!   L <present> kind pid hex                         the bytes of the /proc/self/status stream in hex ("-" = empty); kind / pid
+//!                                                   only describe how the generator built them
 //!   MOD <m> { base size }*m
 //!   UNL <u> { base size nameid }*u                   module name "u<nameid %02>"
 //!   MEM <r> { base size }*r                          region j is filled with the word 0x70000100+16*j (64-bit CPUs)
@@ -57,6 +58,7 @@ pub struct Case {
     pub bp: Option<(u32, u32, u32)>,
     pub misc: Option<(u32, u32, u32, u32)>,
     pub status: Option<(u64, u64)>,
+    pub status_text: Option<Vec<u8>>,
     pub modules: Vec<(u64, u32, String)>,
     pub unloaded: Vec<(u64, u32, String)>,
     pub mems: Vec<(u64, u64)>,
@@ -137,8 +139,14 @@ pub fn parse_case(t: &mut Toks) -> Case {
     expect_tok(t, "L");
     let present = t.u64() != 0;
     let l = (t.u64(), t.u64());
+    let hex = t.str();
     if present {
         c.status = Some(l);
+        c.status_text = Some(if hex == "-" {
+            vec![]
+        } else {
+            (0..hex.len() / 2).map(|i| u8::from_str_radix(&hex[2 * i..2 * i + 2], 16).expect("status hex")).collect()
+        });
     }
     expect_tok(t, "MOD");
     let m = t.usize();
@@ -393,13 +401,8 @@ pub fn build_dump(c: &Case) -> Vec<u8> {
         let s = s.append_repeated(0, (size as usize).saturating_sub(24));
         dump = dump.add_stream(SimpleStream { stream_type: md::MINIDUMP_STREAM_TYPE::MiscInfoStream as u32, section: s });
     }
-    if let Some((kind, pid)) = c.status {
-        let text = match kind {
-            0 => format!("Name:\tx\nUmask:\t0022\nState:\tR (running)\nTgid:\t7\nPid:\t{}\nPPid:\t1\n", pid),
-            1 => "Name:\tx\nTgid:\t7\nPPid:\t1\n".to_string(),
-            _ => format!("Name:\tx\nPid:\tx{}\nPPid:\t1\n", pid),
-        };
-        dump = dump.set_linux_proc_status(text.as_bytes());
+    if let Some(text) = &c.status_text {
+        dump = dump.set_linux_proc_status(text);
     }
     if !c.cpuinfo.is_empty() {
         dump = dump.set_linux_cpu_info(&c.cpuinfo);
